@@ -14,8 +14,19 @@
     taurex/core/priors.py by Props/C08Src.lean; `math.log10 := log10?` (`ValueError` unless `0 < x`);
     `fget() := callGet s h`, `fset(x) := callSet s h x` for a handle `h = (owner, name)`.
   Hypotheses `(names _).Nodup` / `(_.map (·.1)).Nodup`: the keys of a Python dict are pairwise distinct.
+
+  Last section: the glue between an input file and the optimizer, taurex/parameter/parameterparser.py
+  (`ParameterParser.generate_fitting_parameters`, `generate_derived_parameters`, `setup_optimizer`), translated with the
+  dialect `dyn` (harness/translate_dyn.py: dynamically typed values `Dyn.Val`, ONE oracle for everything the text delegates
+  to objects) and tied to `TaurexModel/FittingSection.lean` (`parseFitting`, `splitAll` + `deriveRecs`, `setupOptimizer`).
+  The oracle `fext` (Proofs/C07SrcFitting.lean, read its header) says: `self._raw_config.dict()` is a dict `c` whose
+  entries `Fitting` / `Derive` are the sections as typed by `ParameterParser.transform` (`SecAt`: present with these lines,
+  or absent); `create_prior(v)` returns the prior `mk v` or raises `pexc` (both arbitrary); a method call on the optimizer
+  with arguments of the documented shapes is ONE `step` of the state machine (the methods themselves are tied above).
+  Generic in the carrier `α` and in the `BEq` of objects (never used: dict keys are strings).
 -/
 import Proofs.C07SrcLemmas
+import Proofs.C07SrcFitting
 import TaurexModel.Ops.C07
 set_option linter.unusedSectionVars false
 
@@ -410,6 +421,182 @@ theorem src_fit_names (lx : String → L) (s : St String α) :
     | none => simp [optE]
     | some p =>
       cases fitNamesAux s.fitPriors es <;> cases hm : p.mode <;> simp [optE, modeCode, Taurex.Ops.C07.fName, hm]
+
+end
+
+/-! ### taurex/parameter/parameterparser.py: `[Fitting]` / `[Derive]` sections -> optimizer calls (dialect `dyn`) -/
+
+section
+open Taurex.FittingSection Taurex.Gen.Dyn
+variable {α : Type} [LT α] [DecidableLT α] [OfNat α 0] [Mul α] [Transc α] [BEq (FObj α)]
+
+/-- **`ParameterParser.generate_fitting_parameters()` is `parseFitting`** (`FitOutcome`): where the model returns records,
+    the translated function returns a dict with the same parameter names in the same order whose inner dicts hold under
+    `fit` / `bounds` / `mode` / `factor` / `prior` what the records hold (`GrpSim`; options with any other name are stored in
+    the dict and read by nobody); where the model has `valueError` (a key that is not `name:option`) it raises `ValueError`,
+    where it has `priorError` it raises what `create_prior` raised; the optimizer state is untouched.  An absent section is
+    an empty one. -/
+theorem src_generate_fitting_parameters (mk : FV α → Option (Prior α)) (pexc : Exc) (c : List (FV α × FV α))
+    (fitting : List (String × OptVal α)) (hF : SecAt c "Fitting" fitting) (s : St String α) :
+    FitOutcome pexc s (parseFitting (fun v => mk (embV v)) fitting [])
+      (Gen.SrcC07.generate_fitting_parameters (fext mk pexc (.dict c)) (.obj .self) s) := by
+  unfold Gen.SrcC07.generate_fitting_parameters
+  simp only [eff_bind, getAttr_raw, callMethod_dict, contains_str, dictHas_eq_get]
+  rcases hF with hF | ⟨hF, hnil⟩
+  · simp only [hF, Option.isSome_some, if_true, eff_bind, getItem_str _ _ _ _ _ _ hF, m_items_dict]
+    generalize hR : Dyn.forM (m := FM α) _ _ _ s = R
+    have key : FitOutcome pexc s (parseFitting (fun v => mk (embV v)) fitting []) R := by
+      rw [← hR]
+      refine forM_parse _ pexc _ ?_ fitting [] [] s trivial
+      intro D grp k v s hsim
+      simp only [eff_bind, unpack2_tuple, m_split_colon]
+      cases hk : splitKey k with
+      | none =>
+        rw [unpack2_parts_err _ _ _ _ (splitKey_none k hk)]
+        simp only [lineStep, hk]
+        exact rfl
+      | some ab =>
+        obtain ⟨a, b⟩ := ab
+        rw [splitKey_some k a b hk]
+        obtain ⟨d, hget, hrs, hset⟩ := grpSim_ensure D grp hsim a
+        simp only [unpack2_parts_ok, contains_str, defaultsD] at hget hset ⊢
+        simp only [ite_setItem, eqB_str]
+        by_cases hb : b = "prior"
+        · subst hb
+          simp only [beq_self_eq_true, if_true, eff_bind, global_create_prior, call_create_prior, lineStep, hk,
+            setOpt_prior]
+          cases hmk : mk (embV v) with
+          | none => exact rfl
+          | some p =>
+            simp only [Option.map_some, eff_pure, getItem_str _ _ _ _ _ _ hget, setItem_str]
+            exact ⟨_, rfl, hset _ _ (recSim_set_prior d _ p hrs)⟩
+        · have hb' : (b == "prior") = false := by simpa using hb
+          obtain ⟨r', hr'⟩ := setOpt_other_isSome (fun v => mk (embV v)) ((getRec grp a).getD {}) a b v hb
+          simp only [hb', Bool.false_eq_true, if_false, eff_pure, getItem_str _ _ _ _ _ _ hget, setItem_str, lineStep, hk, hr']
+          exact ⟨_, rfl, hset _ _ (recSim_set_other _ d _ r' a b v hrs hb hr')⟩
+    cases hm : parseFitting (fun v => mk (embV v)) fitting [] with
+    | error e => rw [fitOutcome_err hm key]; exact rfl
+    | ok g =>
+      obtain ⟨D, hD, hs⟩ := fitOutcome_ok hm key
+      rw [hD]
+      exact ⟨D, rfl, hs⟩
+  · subst hnil
+    simp [hF, parseFitting, FitOutcome, GrpSim]
+
+/-- **`ParameterParser.generate_derived_parameters()` is `splitAll` + `deriveRecs`** (`DOutcome`): a dict with the same
+    names in the same order whose inner dicts hold under `compute` what the model's records hold (`DSim`), or `ValueError`
+    for a key that is not `name:option`; the optimizer state is untouched -/
+theorem src_generate_derived_parameters (mk : FV α → Option (Prior α)) (pexc : Exc) (c : List (FV α × FV α))
+    (derive : List (String × OptVal α)) (hD : SecAt c "Derive" derive) (s : St String α) :
+    DOutcome s ((splitAll derive).map (fun dl => deriveRecs dl []))
+      (Gen.SrcC07.generate_derived_parameters (fext mk pexc (.dict c)) (.obj .self) s) := by
+  unfold Gen.SrcC07.generate_derived_parameters
+  simp only [eff_bind, getAttr_raw, callMethod_dict, contains_str, dictHas_eq_get]
+  rcases hD with hD | ⟨hD, hnil⟩
+  · simp only [hD, Option.isSome_some, if_true, eff_bind, getItem_str _ _ _ _ _ _ hD, m_items_dict]
+    generalize hR : Dyn.forM (m := FM α) _ _ _ s = R
+    have key : DOutcome s ((splitAll derive).map (fun dl => deriveRecs dl [])) R := by
+      rw [← hR]
+      refine forM_derive _ ?_ derive [] [] s trivial
+      intro D drecs k v s hsim
+      simp only [eff_bind, unpack2_tuple, m_split_colon]
+      cases hk : splitKey k with
+      | none =>
+        rw [unpack2_parts_err _ _ _ _ (splitKey_none k hk)]
+        simp only [dlineStep, hk]
+        exact rfl
+      | some ab =>
+        obtain ⟨a, b⟩ := ab
+        rw [splitKey_some k a b hk]
+        obtain ⟨d, hget, hset⟩ := dSim_line D drecs hsim a b v
+        simp only [unpack2_parts_ok, contains_str, defaultsC] at hget hset ⊢
+        simp only [ite_setItem, getItem_str _ _ _ _ _ _ hget, setItem_str, dlineStep, hk]
+        exact ⟨_, rfl, hset⟩
+    cases hm : (splitAll derive).map (fun dl => deriveRecs dl []) with
+    | none => rw [dOutcome_none hm key]; exact rfl
+    | some g =>
+      obtain ⟨D, hD', hs⟩ := dOutcome_some hm key
+      rw [hD']
+      exact ⟨D, rfl, hs⟩
+  · subst hnil
+    simp [hD, splitAll, deriveRecs, DOutcome, DSim]
+
+/-- **`ParameterParser.setup_optimizer(optimizer)` is `setupOptimizer`**: the optimizer state afterwards is the model's,
+    and the call returns `None` / raises the class the model's outcome stands for (`resV`: `KeyError`, `ValueError`, what
+    `create_prior` raised).  Hypothesis `hsup`: no `bounds` / `factor` / `mode` value has a shape outside the documented
+    ones (a pair of numbers / a string) — the model's `unsupported`, which the harness does not judge either. -/
+theorem src_setup_optimizer (mk : FV α → Option (Prior α)) (pexc : Exc) (c : List (FV α × FV α))
+    (fitting derive : List (String × OptVal α)) (hF : SecAt c "Fitting" fitting) (hD : SecAt c "Derive" derive)
+    (s : St String α)
+    (hsup : (setupOptimizer (fun v => mk (embV v)) s fitting derive).2.1 ≠ .unsupported) :
+    Gen.SrcC07.setup_optimizer (fext mk pexc (.dict c)) (.obj .self) (.obj .optimizer) s
+      = (resV pexc (setupOptimizer (fun v => mk (embV v)) s fitting derive).2.1,
+         (setupOptimizer (fun v => mk (embV v)) s fitting derive).1) := by
+  have hgen := src_generate_fitting_parameters mk pexc c fitting hF s
+  unfold setupOptimizer at hsup ⊢
+  unfold Gen.SrcC07.setup_optimizer
+  rw [eff_bind]
+  cases hp : parseFitting (fun v => mk (embV v)) fitting [] with
+  | error e =>
+    rw [fitOutcome_err hp hgen]
+    rcases parseFitting_error _ _ _ _ hp with he | he <;> subst he <;> rfl
+  | ok grp =>
+    obtain ⟨D, hgD, hsim⟩ := fitOutcome_ok hp hgen
+    rw [hgD]
+    simp only [hp] at hsup ⊢
+    cases hf : fittingOps grp with
+    | none => simp [hf] at hsup
+    | some fops =>
+      simp only [hf] at hsup ⊢
+      simp only [eff_bind, m_items_dict]
+      generalize hR : Dyn.forM (m := FM α) _ _ _ s = R
+      have key : R = (resU pexc (runStop s fops).2.1, (runStop s fops).1) := by
+        rw [← hR]
+        refine forM_fitOps pexc _ ?_ D grp fops hsim hf s
+        intro n r d ops hrs hops
+        obtain ⟨h1, h2, h3, h4, h5⟩ := hrs
+        obtain ⟨b1, b2, b3⟩ := recOps_not_bad n r ops hops
+        rw [recOps_eq n r ops hops]
+        simp only [unpack2_fn, eff_pure_bind, getItem_fn _ _ _ _ _ _ h1, getItem_fn _ _ _ _ _ _ h2,
+          getItem_fn _ _ _ _ _ _ h3, getItem_fn _ _ _ _ _ _ h4, getItem_fn _ _ _ _ _ _ h5, truthy_embV_fn, truthy_embO_fn]
+        refine runSim_append pexc _ _ _ _ (stage_fit mk pexc _ n r) ?_
+        refine runSim_append pexc _ _ _ _ (stage_factor mk pexc _ n r.factor b1) ?_
+        refine runSim_append pexc _ _ _ _ (stage_bounds mk pexc _ n r.bounds b2) ?_
+        refine runSim_append pexc _ _ _ _ (stage_mode mk pexc _ n r.mode b3) ?_
+        exact stage_prior mk pexc _ n r.prior
+      rw [key]
+      cases ho : (runStop s fops).2.1 with
+      | ok =>
+        simp only [resU]
+        have hder := src_generate_derived_parameters mk pexc c derive hD (runStop s fops).1
+        cases hsd : splitAll derive with
+        | none =>
+          rw [dOutcome_none (by simp [hsd]) hder]
+          rfl
+        | some dl =>
+          obtain ⟨D', hgD', hsim'⟩ := dOutcome_some (by simp [hsd]; rfl) hder
+          rw [hgD']
+          simp only [m_items_dict]
+          generalize hR' : Dyn.forM (m := FM α) _ _ _ (runStop s fops).1 = R'
+          have key' : R' = (resU pexc (runStop (runStop s fops).1 (deriveOps (deriveRecs dl []))).2.1,
+              (runStop (runStop s fops).1 (deriveOps (deriveRecs dl []))).1) := by
+            rw [← hR']
+            refine forM_deriveOps pexc _ ?_ D' _ hsim' _
+            intro n cv d hc
+            simp only [unpack2_fn, eff_pure_bind, getItem_fn _ _ _ _ _ _ hc]
+            exact stage_derive mk pexc _ n cv
+          rw [key']
+          cases (runStop (runStop s fops).1 (deriveOps (deriveRecs dl []))).2.1 <;> rfl
+      | keyError => simp only [resU, resV, ho]
+      | valueError => simp only [resU, resV, ho]
+      | priorError => simp only [resU, resV, ho]
+      | unsupported => simp only [resU, resV, ho]
+
+/-- the sections of `cfgOf fitting derive` are `fitting` and `derive` -/
+theorem secAt_cfgOf (fitting derive : List (String × OptVal α)) :
+    SecAt (α := α) [(.str "Fitting", .dict (embSec fitting)), (.str "Derive", .dict (embSec derive))] "Fitting" fitting ∧
+    SecAt (α := α) [(.str "Fitting", .dict (embSec fitting)), (.str "Derive", .dict (embSec derive))] "Derive" derive := by
+  constructor <;> left <;> simp [dictGet?, beq_str]
 
 end
 
